@@ -257,6 +257,14 @@ def main():
         ok_lean, lean_out = (False, "")
         if ok_gen:
             ok_lean, lean_out = lake_build(targets, log)
+        # run the engines against a private copy of the driver (a concurrent relink must not disturb them)
+        model_run = os.path.join(BIN, "kmip-model.run")
+        if ok_lean and os.path.exists(MODEL):
+            import shutil
+            tmp = model_run + ".%d" % os.getpid()
+            shutil.copy2(MODEL, tmp)
+            os.replace(tmp, model_run)
+            GOENV["VERIF_MODEL"] = model_run
         thms = []
         ok_audit = False
         if ok_lean:
@@ -292,7 +300,7 @@ def main():
 
     # ---- 2. correspondence + oracles -------------------------------------------------------------
     results = []
-    if ok_build and os.path.exists(MODEL):
+    if ok_build and os.path.exists(GOENV["VERIF_MODEL"]):
         results = run_engines(prop, tier, seed, log, replay_lines)
     elif ok_build:
         proof_broken.append("model executable missing")
